@@ -43,6 +43,19 @@ func main() {
 			os.Exit(1)
 		}
 		fmt.Println("OK")
+	case "oa":
+		// probe oa '<content>': build and export OpenAPI
+		j, je := kit.NewJApiFromFile(fs.NewFile("root.jst", os.Args[2]))
+		if je != nil {
+			fmt.Println("BUILD ERROR:", je.Error())
+			os.Exit(1)
+		}
+		b, err := j.ToOpenAPIJson()
+		if err != nil {
+			fmt.Println("OPENAPI ERROR:", err)
+			os.Exit(1)
+		}
+		fmt.Printf("OK %d bytes\n", len(b))
 	case "scan":
 		s := scanner.NewJApiScanner(fs.NewFile("root.jst", os.Args[2]))
 		for {
